@@ -502,7 +502,7 @@ PROPS = {
             'assumptions': COMMON_ASSUMPTIONS + ['memory safety is observed by guard pages and ASan/UBSan (checks alignment, vptr and '
                                                  'nonnull-attribute off: packed header casts and memcpy(_, nullptr, 0) are used by '
                                                  'design), not decided by TLA+',
-                                                 '"promptly" = each episode finishes within the watchdog (60 s)']},
+                                                 '"promptly" = each episode finishes within the watchdog (20 s)']},
     'C19': {'level': 'exploration', 'stages': [CONC_MC, CONC_RUN], 'nontrivial_case': nt_any,
             'technique': 'TLA+ composition of N instance specifications (non-interference invariant, TLC); per-thread traces of '
                          'concurrent runs validated by TLC against the trace of the same workload run alone; data races observed by '
